@@ -47,8 +47,13 @@ let regions_str (l : ((BinNums.coq_N * BinNums.coq_N) * BinNums.coq_N list) list
   if l = [] then "-" else if total > 8192 then Printf.sprintf "big:%d" total
   else Stdlib.String.concat "," (Stdlib.List.map (fun ((f, _), d) -> hex_of_n f ^ ":" ^ hex_of_bytes d) l)
 
+(* fuel of the model's include recursion: more than the number of files of the project suffices (C06_no_out_of_fuel) *)
+let include_fuel = ref CtxModel.include_fuel
+let rec nat_of_int_ (n : int) : Datatypes.nat = if n <= 0 then Datatypes.O else Datatypes.S (nat_of_int_ (n - 1))
+let set_fuel (nfiles : int) = include_fuel := nat_of_int_ (Stdlib.max 64 (nfiles + 2))
+
 let model_text dbg fs root text =
-  match CtxModel.pipeline_gen dbg fs CtxModel.include_fuel root text with
+  match CtxModel.pipeline_gen dbg fs !include_fuel root text with
   | CtxModel.PPanic _ -> "status=panic diags=- regions=-"
   | CtxModel.POutOfFuel -> "status=outoffuel diags=- regions=-"
   | CtxModel.Done (s, diags, regions) ->
@@ -99,6 +104,7 @@ let compare_model (case : string) (impl : string) (files : (string * BinNums.coq
     let fs (p : BinNums.coq_N list) = let s = str_of_bytes p in
       if on_disk && relpath_ok s then (try Some (Stdlib.List.assoc s files) with Not_found -> None) else None in
     let dbg = (field impl "dbg" = "1") in
+    set_fuel (Stdlib.List.length files);
     let m = model_text dbg fs (bytes_of_str root) root_text in
     let impl_obs = Printf.sprintf "status=%s diags=%s regions=%s" (field impl "status") (field impl "diags") (field impl "regions") in
     count "model.compared";
